@@ -1,0 +1,21 @@
+//go:build verif
+// +build verif
+
+package limiter
+
+import (
+	"github.com/kubewharf/kubegateway/pkg/ratelimiter/limiter/elector"
+)
+
+// VerifSetLeaderElector replaces the leader elector of a rate limiter built by NewRateLimiter (before Run) and
+// wires the limiter's leadership callbacks to it, exactly as NewRateLimiter does for the real elector.
+// Verification builds use it to drive the elector's observable steps (leader observed, started / stopped
+// callbacks delivered) one at a time.
+func VerifSetLeaderElector(r RateLimiter, le elector.LeaderElector) {
+	rl := r.(*rateLimiter)
+	rl.leaderElector = le
+	le.SetCallbacks(elector.LeaderCallbacks{
+		OnStartedLeading: rl.startLeading,
+		OnStoppedLeading: rl.stopLeading,
+	})
+}
